@@ -202,18 +202,26 @@ def fold_writes(repo: Repo) -> dict | None:
                     ft = m.storage_type(f"o{total}", size, signed, style, sink, [])
                     bb = m.buffer(endian, sink)
                     seq = (total - 4, 4)
-                    datas = (1, 0x13) if endian == "<" else (((1 << (total - 4)) | 3), 1)
-                    for d_, b_ in zip(datas, seq):
-                        m.call(bb, "write", ft, d_, b_)
-                    if not sink:
-                        m.call(bb, "flush")
-                    out["cases"] += 1
-                    for label, value in sink:
-                        if label == "<raw>":
-                            continue
-                        lo, hi = (-(1 << (total - 1)), 1 << (total - 1)) if signed else (0, 1 << total)
-                        if isinstance(value, int) and lo <= value < hi:
-                            out["overflow_bad"].append((endian, size, signed, style, datas, value))
+                    top = (1, 0x13) if endian == "<" else (((1 << (total - 4)) | 3), 1)   # too wide in the most significant field
+                    low = (((1 << (total - 4)) | 3), 1) if endian == "<" else (1, 0x13)   # too wide next to a neighbour: would spill into it
+                    neg = (1, -2)                                                          # a negative value
+                    for datas in (top, low, neg):
+                        sink.clear()
+                        bb = m.buffer(endian, sink)
+                        refused = False
+                        for d_, b_ in zip(datas, seq):
+                            if m.call(bb, "write", ft, d_, b_)[0] == "raise":
+                                refused = True
+                                break
+                        if not refused and not sink and m.call(bb, "flush")[0] == "raise":
+                            refused = True
+                        out["cases"] += 1
+                        for label, value in ([] if refused else sink):
+                            if label == "<raw>":
+                                continue
+                            lo, hi = (-(1 << (total - 1)), 1 << (total - 1)) if signed else (0, 1 << total)
+                            if isinstance(value, int) and lo <= value < hi:
+                                out["overflow_bad"].append((endian, size, signed, style, datas, value))
     except Refused as e:
         m.refused = str(e)
         return None
